@@ -53,6 +53,8 @@ LocalCase(ver, ml, fl, al) ==
       \* the token for an arbitrary embedded nonce (reference tokens)
       payload_from_nonce |-> CASE ver = 1 -> V1LocalFromNonce(k, n, m, f) [] ver = 2 -> V2LocalFromNonce(k, n, m, f)
                                [] ver = 3 -> V3Local(k, n, m, f, i) [] ver = 4 -> V4Local(k, n, m, f, i),
+      \* v3 only: the same token when the derived counter block is replaced by `iv` (verification hook)
+      payload_iv |-> IF ver = 3 THEN V3LocalWith(k, n, m, f, i, In("iv", 16)) ELSE B(<< >>),
       nonce_len |-> NonceLen(ver), tag_len |-> TagLen(ver)]
 
 PublicCase(ver, ml, fl, al) ==
@@ -67,6 +69,7 @@ PublicCase(ver, ml, fl, al) ==
 PieCase(ver, kt, kl) ==
   [kind |-> "pie", ver |-> ver, ktype |-> kt, klen |-> kl,
    data |-> Pie(ver, kt, In("wk", 32), In("n", 32), In("ptk", kl)),
+   data_iv |-> IF ver \in {1, 3} THEN Pie13With(ver, kt, In("wk", 32), In("n", 32), In("ptk", kl), In("iv", 16)) ELSE B(<< >>),
    nonce_at |-> PieTagLen(ver), nonce_len |-> PieNonceLen, len |-> PieLen(ver, kl)]
 
 PwCost(ver, p) == IF ver \in {1, 3} THEN (IF p = 1 THEN <<1, 0, 0>> ELSE <<1000, 0, 0>>)
@@ -89,16 +92,18 @@ PkeCase(ver, dir) ==
              xpk == EdPkToX(pk)
              epk == IF dir = "recv" THEN In("epk", 32) ELSE X25519Base(In("esk", 32))
              xk == IF dir = "recv" THEN X25519(EdSkToX(In("sk_seed", 32)), epk) ELSE X25519(In("esk", 32), xpk)
-         IN [kind |-> "pke", ver |-> ver, dir |-> dir, data |-> Pke24(ver, xk, epk, xpk, pdk), len |-> SealLen(ver)]
+         IN [kind |-> "pke", ver |-> ver, dir |-> dir, data |-> Pke24(ver, xk, epk, xpk, pdk), len |-> SealLen(ver), data_iv |-> B(<< >>)]
     [] ver = 3 ->
          LET pk == In("pk", 49)
              epk == IF dir = "recv" THEN In("epk", 49) ELSE P384Pub(In("esk", 48))
              xk == IF dir = "recv" THEN P384Ecdh(In("sk", 48), epk) ELSE P384Ecdh(In("esk", 48), pk)
-         IN [kind |-> "pke", ver |-> ver, dir |-> dir, data |-> Pke3(xk, epk, pk, pdk), len |-> SealLen(ver)]
+         IN [kind |-> "pke", ver |-> ver, dir |-> dir, data |-> Pke3(xk, epk, pk, pdk), len |-> SealLen(ver),
+             data_iv |-> Pke3With(xk, epk, pk, pdk, In("iv", 16))]
     [] ver = 1 ->
          LET cc == IF dir = "recv" THEN In("c", 512) ELSE RsaEp(In("pk_der", 0), In("r", 512), 512)
              r == IF dir = "recv" THEN RsaDp(In("sk_der", 0), In("c", 512), 512) ELSE In("r", 512)
-         IN [kind |-> "pke", ver |-> ver, dir |-> dir, data |-> Pke1(r, cc, pdk), len |-> SealLen(ver)]
+         IN [kind |-> "pke", ver |-> ver, dir |-> dir, data |-> Pke1(r, cc, pdk), len |-> SealLen(ver),
+             data_iv |-> Pke1With(r, cc, pdk, In("iv", 16))]
 
 KeyIdCase(ver, kind, kl) ==
   [kind |-> "keyid", ver |-> ver, ktype |-> kind, klen |-> kl,
